@@ -48,7 +48,7 @@ func (C13) Meta() core.Meta {
 		Assumptions: []string{
 			"the destination honours io.Writer (never n<len with nil error); the source never returns (0,nil)",
 			"reference model (sim/ref, validated on the 114 CCTV vectors) decides 'complete valid file for P'",
-			"once-then-recovering sources are checked with the relaxed oracle (error, or exactly P with a clean end): format.Parse discards its private bufio together with an error that arrived with the last header bytes; no data is lost in that case",
+			"once-then-recovering sources are checked with a narrowly relaxed oracle: a clean end with exactly P is tolerated only for binary input when the error arrived together with the bytes that completed the header (format.Parse discards its private bufio and that error with it; the statement's quantifier names once-failures for the destination only); any other swallowed source failure is a violation",
 		},
 		Real:       []string{"filippo.io/age Encrypt/Decrypt", "internal/stream", "internal/format", "armor", "x/crypto"},
 		Stub:       []string{"destination writer (SimDisk)", "ciphertext source (SimSource)", "crypto/rand.Reader (tape)"},
@@ -551,6 +551,30 @@ func (e C13) execSrc(p *C13Plan, c *core.Ctx) *core.Verdict {
 					return fail("C13.src.short_clean", "recovering source fault %+v: clean end of stream with %d of %d plaintext bytes", *f, len(res.Released), len(P))
 				}
 				c.Stats.Inc("probe.once_fault_swallowed_data_complete")
+				// where, relative to the end of the header?
+				switch {
+				case raw:
+					c.Stats.Inc("swallow.dearmor")
+				case p.File.Armor:
+					c.Stats.Inc("swallow.armored")
+				case f.At < hdrLen:
+					c.Stats.Inc("swallow.binary_before_header_end")
+				case f.At < hdrLen+16:
+					c.Stats.Inc("swallow.binary_in_nonce")
+				default:
+					c.Stats.Inc("swallow.binary_in_payload")
+				}
+				if f.Mode == "once-eof" {
+					c.Stats.Inc("swallow.mode_once_eof")
+				}
+				// The tolerated case is narrow: the error came with the bytes that completed a binary header
+				// (format.Parse then drops its private bufio and the error with it; nothing is read wrongly).
+				// A source error that arrived BEFORE the header was complete, or anywhere in armored input,
+				// cannot be dropped without the parser asking the failed source again.
+				if raw || p.File.Armor || f.At+src.FiredK < hdrLen {
+					return fail("C13.src.once_swallowed", "the source failed once at offset %d (delivering %d bytes with the error; header ends at %d, armored=%v) and went on; decryption reported a clean end of stream and never mentioned the failure, although it had to read from the failed source again to get there", f.At, src.FiredK, hdrLen, raw || p.File.Armor)
+				}
+				c.Stats.Inc(fmt.Sprintf("swallow.k_%d_bufio_%d_deliv_%s", min(f.K, 2), p.Delivery.Bufio, p.Delivery.Mode))
 			} else if res.DecryptErr == nil && !res.Sticky {
 				return fail("C13.src.notsticky", "failed reader does not keep failing: %s", res.StickyNote)
 			}
